@@ -533,3 +533,127 @@ Proof.
   destruct (json_loads (join " " (x :: l))) as [v| |]; simpl; [|reflexivity|reflexivity].
   destruct v; reflexivity.
 Qed.
+
+(** ** the loader on flat objects of plain strings: what is written is what is loaded *)
+Definition simple_char (c : ascii) : bool :=
+  negb (Ascii.eqb c dquote) && negb (Ascii.eqb c "\"%char) && negb (Nat.ltb (nat_of_ascii c) 32).
+
+Fixpoint simple_str (s : string) : bool :=
+  match s with
+  | EmptyString => true
+  | String c r => simple_char c && simple_str r
+  end.
+
+Definition simple_pair (p : string * string) : Prop :=
+  simple_str (fst p) = true /\ simple_str (snd p) = true.
+
+(** ["k":"v"] followed by [tail] *)
+Definition render_pair (p : string * string) (tail : string) : string :=
+  String dquote (fst p ++ String dquote (String ":" (String dquote (snd p ++ String dquote tail)))).
+
+Fixpoint render_members (p : string * string) (ps : list (string * string)) (tail : string) : string :=
+  match ps with
+  | [] => render_pair p (String "}" tail)
+  | q :: r => render_pair p (String "," (render_members q r tail))
+  end.
+
+Definition render_object (ps : list (string * string)) : string :=
+  match ps with
+  | [] => "{}"
+  | p :: r => String "{" (render_members p r "")
+  end.
+
+Definition str_pair (p : string * string) : val * val := (VStr (fst p), VStr (snd p)).
+
+Lemma jstring_simple s rest :
+  simple_str s = true -> jstring (s ++ String dquote rest) = Ok (s, rest).
+Proof.
+  induction s as [|c r IH]; intros H.
+  - reflexivity.
+  - simpl in H. apply andb_true_iff in H as [Hc Hr]. unfold simple_char in Hc.
+    apply andb_true_iff in Hc as [Hc H3]. apply andb_true_iff in Hc as [H1 H2].
+    apply negb_true_iff in H1, H2, H3.
+    change ((String c r) ++ String dquote rest) with (String c (r ++ String dquote rest)).
+    cbn [jstring]. rewrite H1, H2, H3, (IH Hr). reflexivity.
+Qed.
+
+Lemma jmembers_dq f r :
+  jmembers (S f) (String dquote r) =
+  (let* (key, k1) := jstring r in
+   match skip_ws k1 with
+   | String c2 k2 =>
+       if Ascii.eqb c2 ":"%char then
+         let* (v, k3) := jvalue f (skip_ws k2) in
+         match skip_ws k3 with
+         | String c4 k4 =>
+             if Ascii.eqb c4 "}"%char then Ok ([(VStr key, v)], k4)
+             else if Ascii.eqb c4 ","%char then
+               let* (ps, k5) := jmembers f (skip_ws k4) in Ok ((VStr key, v) :: ps, k5)
+             else jerr
+         | EmptyString => jerr
+         end
+       else jerr
+   | EmptyString => jerr
+   end).
+Proof. reflexivity. Qed.
+
+Lemma jvalue_dq f r :
+  jvalue (S f) (String dquote r) = (let* (t, k) := jstring r in Ok (VStr t, k)).
+Proof. reflexivity. Qed.
+
+Lemma jvalue_obj f r :
+  jvalue (S f) (String "{" (String dquote r))
+  = (let* (ps, k) := jmembers f (String dquote r) in Ok (VDict (dict_update [] ps), k)).
+Proof. reflexivity. Qed.
+
+Lemma render_members_head p ps tail :
+  exists r, render_members p ps tail = String dquote r.
+Proof. destruct ps; eexists; reflexivity. Qed.
+
+Opaque jvalue jmembers jelements.
+
+Lemma jmembers_render ps : forall p tail fuel,
+  simple_pair p -> Forall simple_pair ps -> (2 * List.length ps + 2 <= fuel) ->
+  jmembers fuel (render_members p ps tail) = Ok (map str_pair (p :: ps), tail).
+Proof.
+  induction ps as [|q r IH]; intros p tail fuel [Hk Hv] F L.
+  - destruct fuel as [|[|f]]; [simpl in L; lia|simpl in L; lia|].
+    unfold render_members, render_pair.
+    rewrite jmembers_dq, (jstring_simple _ _ Hk). simpl.
+    rewrite jvalue_dq, (jstring_simple _ _ Hv). simpl. reflexivity.
+  - inversion F as [|? ? Hq Fr]; subst.
+    destruct fuel as [|[|f]]; [simpl in L; lia|simpl in L; lia|].
+    cbn [render_members]. unfold render_pair at 1.
+    rewrite jmembers_dq, (jstring_simple _ _ Hk). simpl.
+    rewrite jvalue_dq, (jstring_simple _ _ Hv). simpl.
+    destruct (render_members_head q r tail) as (r' & E). rewrite E. simpl. rewrite <- E.
+    rewrite (IH q tail (S f) Hq Fr); [reflexivity|simpl in *; lia].
+Qed.
+
+Transparent jvalue jmembers jelements.
+
+Lemma render_members_length p ps tail :
+  2 * List.length ps + 2 <= String.length (render_members p ps tail).
+Proof.
+  revert p; induction ps as [|q r IH]; intros p; cbn [render_members]; unfold render_pair.
+  - simpl. rewrite append_length. simpl. lia.
+  - specialize (IH q). simpl. rewrite append_length. simpl. rewrite append_length. simpl.
+    simpl in IH. lia.
+Qed.
+
+(** a flat object written with plain string keys and values loads as the dict of its pairs
+    (later duplicates win, first position kept) *)
+Lemma json_loads_render_object ps :
+  Forall simple_pair ps ->
+  json_loads (render_object ps) = Ok (VDict (dict_of_pairs (map str_pair ps))).
+Proof.
+  intros F. destruct ps as [|p r]; [reflexivity|].
+  inversion F as [|? ? Hp Fr]; subst.
+  unfold json_loads, render_object.
+  destruct (render_members_head p r "") as (r' & E).
+  change (skip_ws (String "{" (render_members p r ""))) with (String "{" (render_members p r "")).
+  rewrite E at 2. rewrite jvalue_obj. rewrite <- E.
+  rewrite (jmembers_render r p "" _ Hp Fr).
+  - reflexivity.
+  - simpl String.length. pose proof (render_members_length p r ""). lia.
+Qed.
